@@ -26,6 +26,7 @@ class Req:
         self.contract = []              # gateway-contract violations (strings)
         self.reads = []                 # sizes passed to wsgi.input.read
         self.bytes_pulled = 0           # ASGI: request body bytes pulled through receive()
+        self.pulls = []                 # ASGI: bytes held before each receive() call
         self.start_calls = 0
         self.tolerated = []
 
